@@ -22,6 +22,7 @@
   `soundClass` / `errClass`.
 -/
 import VrlProofs.Lemmas.C03Coll
+import VrlProofs.Lemmas.C03Err
 
 namespace C03
 open Spec
@@ -51,13 +52,13 @@ def SoundAt (E : Env) (F : Fn) (as : ASlots) (vs : Slots) (td : TD) : Prop :=
 def InfallibleAt (E : Env) (F : Fn) (vs : Slots) (td : TD) : Prop :=
   td.fallible = false → model E F vs ≠ .err
 
-/-- **C03 (a)+(k) at full strength** (false for `pop`, `slice`, `mod`, `compact`, `flatten`, `merge`:
+/-- **C03 (a)+(k) at full strength** (false for `pop`, `slice`, `compact`, `flatten`, `merge`:
     see the witnesses). -/
 def Sound (E : Env) (F : Fn) : Prop :=
   ∀ as vs td, Call F as vs td → SoundAt E F as vs td
 
-/-- **C03 (b) at full strength** (false for `from_entries`, `unflatten`, `encode_base64`, `mod`,
-    `to_float`: see the witnesses). -/
+/-- **C03 (b) at full strength** (false for `from_entries`, `unflatten`, `encode_base64`, `mod`:
+    see the witnesses; `to_float` repaired in /repo 3677b5b). -/
 def Infallible (E : Env) (F : Fn) : Prop :=
   ∀ as vs td, Call F as vs td → InfallibleAt E F vs td
 
@@ -422,27 +423,45 @@ theorem mod_kind (as : ASlots) :
     (declaredFn .mod as).kind =
       (match aconst as 1 with
        | some (.float _) => Kind.float
-       | some (.int _) => Kind.integer
+       | some (.int i) => if i = 0 then Kind.integer else modDividendKind (akind as 0)
        | _ => Kind.float.orInteger) := by
   simp only [declaredFn]
   cases aconst as 1 with
   | none => split <;> rfl
-  | some w => cases w <;> split <;> rfl
+  | some w =>
+    cases w <;> simp only [modTD] <;> first | (split <;> rfl) | skip
+    rename_i i
+    by_cases hi : i = 0 <;> simp only [hi, if_true, if_false] <;> split <;> rfl
 
 theorem mem_floatOrInt {v : Value} (hn : (tagOf v).isNum = true) : mem v Kind.float.orInteger = true := by
   cases v <;> simp [tagOf, Tag.isNum] at hn <;> rfl
 
-/-- **`mod`: with a float literal as modulus the result is a float, with a runtime-typed modulus an
-    integer or a float; with an INTEGER literal as modulus the declared kind is `integer`, which
-    holds when the dividend's kind is exactly `integer`** (`mod(0.1, 1)` is a float: `witness_mod`). -/
-theorem mod_sound_partial (E : Env) (as : ASlots) (vs : Slots) (td : TD) (c : Call .mod as vs td)
-    (hk : ∀ i, aconst as 1 = some (.int i) → (akind as 0).isInteger = true) :
-    SoundAt E .mod as vs td := by
-  intro r hr
+/-- the remainder by a constant non-zero integer has the kind of the dividend -/
+theorem mem_modDividendKind {k0 : Kind} {v r : Value} (hm : mem v k0 = true)
+    (hn : (tagOf v).isNum = true) (ht : tagOf r = tagOf v) : mem r (modDividendKind k0) = true := by
+  unfold modDividendKind
+  split
+  · rename_i hk
+    have hv := tag_of_isInteger hk hm
+    rw [hv] at ht
+    cases r <;> simp [tagOf] at ht; rfl
+  · split
+    · rename_i hk
+      have hv := tag_of_isFloat hk hm
+      rw [hv] at ht
+      cases r <;> simp [tagOf] at ht; rfl
+    · exact mem_floatOrInt (by rw [ht]; exact hn)
+
+/-- **`mod`: with a float literal as modulus the result is a float; with a non-zero integer literal
+    the result has the kind of the dividend (integer, float, or `integer | float` when the dividend
+    is not exactly one of them); with a runtime-typed modulus an integer or a float.** Full statement
+    since /repo cbab0ba (before: `integer` for every integer literal, `fixed_mod`). -/
+theorem mod_sound (E : Env) : Sound E .mod := by
+  intro as vs td c r hr
   rw [decl_kind c.decl, mod_kind]
   simp only [model] at hr
   obtain ⟨v, m, rfl, hr⟩ := bin_ok hr
-  obtain ⟨hmn, hvn, hf, hi⟩ := tryRem_ok hr
+  obtain ⟨hmn, hvn, hf, hi, hz⟩ := tryRem_ok hr
   have hm := head_mem c
   obtain ⟨a0, as', rfl, _, hadm⟩ := admits_cons c.adm
   obtain ⟨a1, as'', rfl, ha1, _⟩ := admits_cons hadm
@@ -458,13 +477,11 @@ theorem mod_sound_partial (E : Env) (as : ASlots) (vs : Slots) (td : TD) (c : Ca
     subst ha1
     simp only [aconst, List.getElem?_cons_succ, List.getElem?_cons_zero, Arg.const]
     cases m <;> simp [tagOf, Tag.isNum] at hmn
-    · -- integer literal
+    · -- integer literal (non-zero: the call returned a value)
       rename_i i _
-      have hki := hk i (by simp [aconst, Arg.const])
-      have hv := tag_of_isInteger hki hm
-      have hr' := hi rfl
-      rw [hv] at hr'
-      cases r <;> simp [tagOf] at hr'; rfl
+      have hi0 : i ≠ 0 := fun h => hz (by rw [h])
+      simp only [hi0, if_false]
+      exact mem_modDividendKind hm hvn (hi rfl)
     · have hr' := hf rfl
       cases r <;> simp [tagOf] at hr'; rfl
 
